@@ -590,6 +590,36 @@ _add("C20", rule="the handler must not see headers of earlier requests of the se
      probes=["bodies_with_percent_signs", "ws_server_sends_while_handler_reads"])
 
 
+# wave 8
+_add("C03", rule="the peer answers late (the SYN or the SYN-ACK has been retransmitted once or twice by then: what acknowledges it is still ISS+1 only); a second wrong "
+     "final ACK on the same half-open connection (reset like the first); whatever arrives at the listening port that is no SYN draws nothing but resets "
+     "(also resets that carry SYN)",
+     probes=["syn_ack_retransmitted_before_the_final_ack", "syn_retransmitted_before_the_answer", "second_wrong_final_ack"])
+_add("C04", rule="segments beginning exactly at the right edge (first byte outside); receiver role with the stack's own sender blocked (peer window 0 throughout, "
+     "application data queued): the window update after a drain must still go out",
+     probes=["segments_beginning_exactly_at_the_right_edge", "stack_send_blocked_by_peer_window"])
+_add("C05", rule="application-limited flights acknowledged late and one segment at a time, then silence (one segment per timeout)",
+     probes=["stretched_acks_then_silence"])
+_add("C06", rule="ping writes whose checksum field the application filled in; (app scenario) hairpin links with an MTU of 65536 and 70000 bytes, so that "
+     "full-sized segments approach the 16-bit length limit", probes=["ping_writes_with_a_checksum_filled_in"])
+_add("C07", rule="more well-formed datagrams for the bound socket than its receive buffer holds, nobody reading",
+     probes=["bound_socket_flooded_beyond_its_buffer"])
+_add("C09", rule="(Subnet configurations) the subnet is removed and added again during the run; IPv6 datagrams, which reach the dual-stack wildcard socket of the port "
+     "and no socket whose binding covers IPv4 only - among them IPv6 sockets bound to the IPv4-mapped wildcard; when the application closes a connection "
+     "the peer completes the closing exchange and must be answered by that connection (not by a reset, not by a listener on the port)",
+     probes=["subnet_removed", "ipv6_datagrams_injected", "sockets_bound_to_the_mapped_ipv4_wildcard", "closing_exchange_completed_by_the_peer"])
+_add("C10", rule="(netsim:demux) a bound TCP socket whose Connect is refused locally stays open and keeps its port (the same active open is generated again on purpose)",
+     probes=["tcp_sockets_left_bound_after_a_refused_connect"])
+_add("C11", rule="short frames padded by the link (bytes behind the IP packet are not part of the datagram); two senders using one IP identification, both "
+     "datagrams in two fragments, interleaved",
+     probes=["arrivals_with_link_padding", "interleaved_fragments_of_two_senders"])
+_add("C12", rule="an on-link host whose address ends in 255 (a second on-link network 10.0.4.0/23): resolved like any other neighbour")
+_add("C13", rule="requests in 17-40 fragments; a complete fragmented request that reuses the IP identification of a datagram abandoned more than 30 s earlier; "
+     "one run in five on a link that declares checksum offload (which covers TCP and UDP, not ICMP)",
+     probes=["requests_in_seventeen_or_more_fragments", "identification_of_an_abandoned_datagram_reused", "links_declaring_checksum_offload"])
+_add("C20", rule="upgrade requests whose key is the base64 form of a 6-, 20-, 32- or 52-byte nonce", probes=["ws_keys_of_unusual_length"])
+
+
 PENDING = "check not built yet (work in progress; will be claimed once its simulation exists)"
 NOT_APPLICABLE = {
     "C15": "pure functions of their input (header codecs, RFC 1071 checksum): no schedule, clock, fault, I/O or second party for a simulator to control; "
